@@ -34,7 +34,6 @@ import (
 	"sort"
 	"strconv"
 	"sync"
-	"sync/atomic"
 
 	"github.com/Dash-Industry-Forum/livesim2/cmd/livesim2/app"
 
@@ -75,6 +74,20 @@ func (rc *recorder) add(inst, phase string, it item, r srv.Resp) {
 	}
 	m[r.Status]++
 	rc.mu.Unlock()
+}
+
+func (rc *recorder) merge(o *recorder) {
+	rc.mu.Lock()
+	defer rc.mu.Unlock()
+	rc.recs = append(rc.recs, o.recs...)
+	for k, m := range o.st {
+		if rc.st[k] == nil {
+			rc.st[k] = map[int]int{}
+		}
+		for st, c := range m {
+			rc.st[k][st] += c
+		}
+	}
 }
 
 func (rc *recorder) aux(e tr.E) {
@@ -143,26 +156,30 @@ func serveSeq(rc *recorder, s *srv.S, inst, phase string, items []item) {
 	}
 }
 
-// serveConc serves items on `workers` goroutines (shared cursor: the mix of concurrently served requests
-// is whatever the scheduler makes of the seeded order).
+// serveConc serves items on `workers` goroutines. The harness adds NO synchronisation between the workers while
+// they run (static partition of the seeded order, worker-local buffers, merged after the join): the Go race
+// detector is happens-before based, a shared cursor or a shared recorder lock would order the requests of
+// different workers and hide races of the server from it.
 func serveConc(rc *recorder, s *srv.S, inst, phase string, items []item, workers int) {
-	var cur atomic.Int64
+	locals := make([]*recorder, workers)
+	start := make(chan struct{})
 	var wg sync.WaitGroup
 	for g := 0; g < workers; g++ {
+		locals[g] = newRecorder()
 		wg.Add(1)
-		go func() {
+		go func(g int) {
 			defer wg.Done()
-			for {
-				i := int(cur.Add(1)) - 1
-				if i >= len(items) {
-					return
-				}
-				it := items[i]
-				rc.add(inst, phase, it, s.Get(it.Full()))
+			<-start
+			for i := g; i < len(items); i += workers {
+				locals[g].add(inst, phase, items[i], s.Get(items[i].Full()))
 			}
-		}()
+		}(g)
 	}
+	close(start)
 	wg.Wait()
+	for _, l := range locals {
+		rc.merge(l)
+	}
 }
 
 func countFiles(dir, suffix string) int {
@@ -185,6 +202,7 @@ func Main(args []string) error {
 	seed := fs.Int64("seed", 1, "seed")
 	thorough := fs.Bool("thorough", false, "thorough tier")
 	n := fs.Int("n", 10000, "target number of responses")
+	phases := fs.String("phases", "all", "race mode: all | ingest (skip the response mixes)")
 	statsFile := fs.String("stats", "", "also write the stats JSON to this file (race mode: before the ingest phase and at the end)")
 	_ = fs.Parse(args)
 	if *work == "" {
@@ -204,7 +222,7 @@ func Main(args []string) error {
 	case "main":
 		return runMain(*vod, *work, *out, *seed, *thorough, *n)
 	case "race":
-		return runRace(*vod, *work, *out, *seed, *thorough, *n, *statsFile)
+		return runRace(*vod, *work, *out, *seed, *thorough, *n, *statsFile, *phases)
 	}
 	return fmt.Errorf("unknown mode %q", *mode)
 }
